@@ -908,3 +908,108 @@ func c16Round5(c *Ctx) {
 		c.Check(bad == "", "C16.panic", fname(fn)+":a possibly-nil pointer is dereferenced only behind its nil test", c.P.Pos(fn.Pos()), itoa(n)+" dereference(s) of pointers that are nil on some path, each behind the pointer's nil test", "a pointer that is nil on some path is dereferenced at "+bad+" without a nil test of it: a proof chosen to take that path (e.g. a single nil entry) crashes the verifier instead of being rejected")
 	}
 }
+
+// loopBodyAlwaysReaches: in fn, every loop whose continuation test matches headRe is such that each iteration passes
+// one of the must instructions (or leaves the function) before the next test: from the loop body's entry the loop test
+// is not reachable again with the must instructions cut. Returns the number of loops and the first offending test.
+func loopBodyAlwaysReaches(fn *ssa.Function, headRe string, must []ssa.Instruction) (int, ssa.Instruction) {
+	n := 0
+	for _, b := range fn.Blocks {
+		iff := lastIf(b)
+		if iff == nil || !inCycle(b) {
+			continue
+		}
+		if !strings.Contains(normCond(iff.Cond, true), headRe) {
+			continue
+		}
+		n++
+		if hit := Reach(fn, nil, []Edge{{b, 0}}, isInstr(iff), NewCut().AddInstr(must...)); hit != nil {
+			return n, iff
+		}
+	}
+	return n, nil
+}
+
+// c19Round5 (seed C19r5/14): what is hashed against DataHash is the whole list that is handed on — every element of
+// the provider's transaction list enters the hashed Data (a filtered hash lets the provider pad the list, shifting the
+// index of every later transaction, while it still "verifies").
+func c19Round5(c *Ctx) {
+	fn := c.needFn("C19.verify", "consensus/cometbft/stateless.verifyTransactions")
+	if fn == nil {
+		return
+	}
+	var apps []ssa.Instruction
+	for _, st := range StoresTo(fn, "", "github.com/cometbft/cometbft/types.Data.Txs").Ins {
+		if call, ok := st.(*ssa.Store).Val.(*ssa.Call); ok {
+			if b, isB := call.Call.Value.(*ssa.Builtin); isB && b.Name() == "append" {
+				apps = append(apps, st)
+			}
+		}
+	}
+	n, bad := loopBodyAlwaysReaches(fn, "builtin.len(param:txs)", apps)
+	site := c.P.Pos(fn.Pos())
+	if bad != nil {
+		site = c.P.InstrPos(bad)
+	}
+	c.Check(n > 0 && len(apps) > 0 && bad == nil, "C19.verify", fname(fn)+":every given transaction enters the hashed list", site, "each iteration over the given transactions appends one to the hashed Data", "an iteration over the provider's transaction list can skip the append to the hashed Data (loops="+itoa(n)+", appends="+itoa(len(apps))+"): the list that verifies against DataHash is not the list that is handed on")
+}
+
+// c18Round5 (seed C18r5/13): a TDX module policy entry matches only a module of its signer — Matches answers true only
+// where MrSignerSeam equals the report's, whether or not a measurement is pinned as well.
+func c18Round5(c *Ctx) {
+	fn := c.needFn("C18.must", "common/sgx/pcs.(*TdxModulePolicy).Matches")
+	if fn == nil {
+		return
+	}
+	c.ResultImpliesCond("C18.must", fn, 0, true, fname(fn)+":true ⇒ the module signer is the entry's", "mp.MrSignerSeam == report.mrSignerSeam",
+		`^\*param:mp\.MrSignerSeam == \*param:report\.mrSignerSeam$`,
+		"a policy entry matches only modules signed by its MRSIGNERSEAM",
+		"a TDX module policy entry can match a module whose signer (MRSIGNERSEAM) is not the entry's: a quote from a module the policy does not allow is accepted")
+	c.ResultImpliesCond("C18.must", fn, 0, true, fname(fn)+":true ⇒ a pinned measurement equals the report's", "mp.MrSeam == nil ∨ *mp.MrSeam == report.mrSeam",
+		`^\*param:mp\.MrSeam == nil$|^\*\*param:mp\.MrSeam == \*param:report\.mrSeam$`,
+		"a pinned MRSEAM is compared", "a TDX module policy entry with a pinned MRSEAM can match a module with another measurement")
+}
+
+// c17Round5 (seed C17r5/14): the runtime-by-entity index follows the runtime's EntityID — in registerRuntime a removal
+// of the old owner's index entry is followed, on every success path, by setting the entry of the current owner (the
+// entity cannot be deregistered while the index names it; a runtime left out of the index orphans its owner check).
+func c17Round5(c *Ctx) {
+	fn := c.needFn("C17.remove", "consensus/cometbft/apps/registry.(*Application).registerRuntime")
+	if fn == nil {
+		return
+	}
+	rm := CallsTo(fn, "RemoveRuntimeOwner", "consensus/cometbft/apps/registry/state.(*MutableState).RemoveRuntimeOwner", "")
+	set := CallsTo(fn, "SetRuntimeOwner", "consensus/cometbft/apps/registry/state.(*MutableState).SetRuntimeOwner", "")
+	if rm.Empty() || set.Empty() {
+		c.Fail("C17.remove", fname(fn)+":owner index entry removed⇒entry of the current owner set", c.P.Pos(fn.Pos()), "the maintenance of the runtime-by-entity index (RemoveRuntimeOwner / SetRuntimeOwner) was not found in registerRuntime")
+		return
+	}
+	c.OnAllSuccessExits("C17.remove", fn, rm, set, "a runtime whose old owner entry was removed is indexed under its current EntityID before the registration succeeds")
+	for _, call := range set.Calls() {
+		a := allArgs(call)
+		c.Check(len(a) >= 4 && strings.HasSuffix(vstr(a[3]), ".EntityID") && strings.Contains(vstr(a[3]), "param:rt"), "C17.remove", fname(fn)+":the index entry is set for the registered descriptor's EntityID", c.P.InstrPos(call), "SetRuntimeOwner(rt.ID, rt.EntityID)", "the runtime-by-entity index is set for something other than the registered descriptor's EntityID")
+	}
+}
+
+// c14Round5 (seed C14r5/13): the stake an entity must hold is the sum over *every* threshold of every claim — in
+// TotalClaims each iteration over a claim's thresholds adds that threshold's value to the total (or fails). Collapsing
+// repeated kinds (one compute threshold per runtime a node serves) under-counts, and an under-staked entity's nodes
+// are elected.
+func c14Round5(c *Ctx) {
+	fn := c.needFn("C14.filter", "staking/api.(*StakeAccumulator).TotalClaims")
+	if fn == nil {
+		return
+	}
+	var adds []ssa.Instruction
+	for _, call := range CallsTo(fn, "", "common/quantity.(*Quantity).Add", "").Calls() {
+		if a := allArgs(call); len(a) == 2 && strings.Contains(vstr(a[1]), "(*StakeThreshold).Value(") {
+			adds = append(adds, call)
+		}
+	}
+	n, bad := loopBodyAlwaysReaches(fn, "builtin.len(next(range(*param:sa.Claims))#2)", adds)
+	site := c.P.Pos(fn.Pos())
+	if bad != nil {
+		site = c.P.InstrPos(bad)
+	}
+	c.Check(n > 0 && len(adds) > 0 && bad == nil, "C14.filter", fname(fn)+":every threshold of every claim is added to the total", site, "each iteration over a claim's thresholds adds the threshold's value to the total", "an iteration over a claim's thresholds can go on without adding that threshold's value to the total (loops="+itoa(n)+", additions of a threshold value="+itoa(len(adds))+"): repeated threshold kinds are under-counted and an entity whose escrow does not cover its claims passes the stake check")
+}
